@@ -460,28 +460,36 @@ def run_canaries(w, st):
     torch = L.torch
     recs = []
 
-    def do_call(inst_family, mod, recipe, tag):
+    def do_call(inst_family, mod, recipe, tag, big=False):
         if inst_family in catalog.INPUT_RANK:
             dt = DTNAME.get(catalog.module_dtype(mod)) or "float32"
             spec = catalog.canary_spec(inst_family, dt)
+            if big:
+                # a plain evaluation batch (no gradient wanted) beyond any
+                # plausible chunking threshold, in the module's own precision
+                spec = dict(spec, shape=[40] + list(spec["shape"][1:]), seed=54321)
             op = {"op": "call", "id": tag, "arg": spec, "grad_mode": "ambient",
-                  "requires_grad": True}
+                  "requires_grad": not big}
             rec = {"client": -1, "op_id": tag, "op": op, "kind": "call", "canary": True,
                    "family": inst_family, "recipe": recipe, "mod_dtype": dt, "retry": False}
             if w.profile == "C16":
                 rec["state"] = tensor_state(mod)
             base, x = make_tensor(spec)
-            x.requires_grad_(True)
+            if not big:
+                x.requires_grad_(True)
             oc, val = _run(lambda: mod(x))
             rec["outcome"] = oc
             if oc == "ok":
                 rec["out_snap"] = snap(val)
             recs.append(rec)
+    parity = int(w.plan.get("seed") or 0) % 2
     for slot in sorted(w.slots):
         inst = w.slots[slot]
         if inst is None:
             continue
         do_call(inst.family, inst.mod, inst.recipe, "canary-slot%s" % slot)
+        if slot % 2 == parity:
+            do_call(inst.family, inst.mod, inst.recipe, "canary-big-slot%s" % slot, big=True)
     # fresh constructions in the ambient (possibly leaked) state; the recipe
     # says what the harness *intended* the default dtype to be
     for fam, params in (("dwt2f", {"wave": {"kind": "name", "name": "db2"}, "mode": "symmetric", "J": 2}),
